@@ -20,11 +20,13 @@ inductive Out
   | err (printable : Bool)   -- an error is returned; `printable` = its `Error()` method returns (see `errorText`)
   | panic (site : String)
   | diverge
+  | exhaust                  -- time and memory proportional to a NUMBER written in the request, not to its size
   deriving DecidableEq, Repr
 
 def Out.bad : Out → Bool
   | .panic _ => true
   | .diverge => true
+  | .exhaust => true
   | _ => false
 
 /-- the returned error is one whose text cannot be produced -/
@@ -55,6 +57,8 @@ structure Bits where
   visitOK : Bool
   errValueJSON : Bool   -- the value a schema error would carry can be JSON-encoded (false: it holds NaN/±Inf or a
                         -- mapping with a non-string key; only `strconv.ParseFloat` and the YAML decoder produce those)
+  hugeIndex : Bool      -- a deepObject key addresses an array element by a number far beyond the number of keys
+                        -- (`p[b][2000000000]=1`): `sliceMapToSlice` builds every element up to it (F-C10-8)
   copyFails : Bool      -- the walk reaches a oneOf/anyOf (in request or response mode) holding a value that
                         -- `deepcopy.Copy` cannot copy: a mapping with a nil or NaN key (only the YAML decoder makes those)
   deriving DecidableEq, Repr
@@ -117,6 +121,7 @@ def validateParameter (p : ParamM) (b : Bits) : Out :=
     | none => .ok
     | some s =>
       if !s.resolved then .panic "decodeValue: schema.Value"
+      else if p.isQuery ∧ b.hugeIndex then .exhaust      -- DecodeObject → makeObject → buildResObj → sliceMapToSlice
       else if b.decodeErr then .err true
       else afterDecode p (some s) b
 
@@ -345,6 +350,7 @@ theorem errorText_of_printable (d : Bool) (o : Out) (hb : o.bad = false) (hp : o
     | false => simp [Out.unprintable] at hp
   | panic s => simp [Out.bad] at hb
   | diverge => simp [Out.bad] at hb
+  | exhaust => simp [Out.bad] at hb
 
 theorem afterDecode_not_bad (p : ParamM) (s : Option SchemaM) (b : Bits)
     (hs : ∀ x, s = some x → x.resolved = true ∧ x.unguarded = false) (hc : b.copyFails = false) :
@@ -376,8 +382,10 @@ theorem seq_not_bad (multi : Bool) : ∀ (l : List Out), (∀ o ∈ l, o.bad = f
         | err q => rfl
         | panic s => rw [hs] at ih; exact ih
         | diverge => rw [hs] at ih; exact ih
+        | exhaust => rw [hs] at ih; exact ih
     | panic s => simp [Out.bad] at ho
     | diverge => simp [Out.bad] at ho
+    | exhaust => simp [Out.bad] at ho
 
 /-- every collected error printable ⇒ the result is printable -/
 theorem seq_printable (multi : Bool) : ∀ (l : List Out), (∀ o ∈ l, o.unprintable = false) → (seq multi l).unprintable = false
@@ -404,8 +412,10 @@ theorem seq_printable (multi : Bool) : ∀ (l : List Out), (∀ o ∈ l, o.unpri
           | false => simp [Out.unprintable] at ih
         | panic s => rfl
         | diverge => rfl
+        | exhaust => rfl
     | panic s => rfl
     | diverge => rfl
+    | exhaust => rfl
 
 theorem mem_zipIdx {α : Type} : ∀ (l : List α) (i : Nat) (p : Nat × α), p ∈ zipIdx l i → p.2 ∈ l
   | [], _, _, h => by simp [zipIdx] at h
@@ -432,6 +442,12 @@ theorem convertSchema_not_bad (pn : Bool) : ∀ (chain : List SchemaErrM),
     | err => rfl
     | panic s => rw [hcs] at ihx; simp [Out.bad] at ihx
     | diverge => rw [hcs] at ihx; simp [Out.bad] at ihx
+    | exhaust => rw [hcs] at ihx; simp [Out.bad] at ihx
+
+/-! ## F-C10-8: a deepObject key with a huge array index -/
+
+def HugeIndexReq (op : OpM) (t : ReqTraffic) : Bool :=
+  (zipIdx op.params 0).any (fun ip => ip.2.isQuery && (t.paramBits ip.1).hugeIndex)
 
 /-! ## F-C10-7: a value `deepcopy.Copy` cannot copy reaches a oneOf/anyOf -/
 
